@@ -62,160 +62,164 @@ def run(ctx: Context) -> None:
     share_obligations(ctx, c13, {'R13.3', 'R13.4', 'R13.5'}, 'R12.5')
 
     # ---- R12.2 the reducer
-    ff = ctx.func(f"{DEPTH}._find_ocean_floor_indexes")
-    fflow = ctx.flow(ff)
-    da, dd = ff.params[0], ff.params[1]
-    rets = ff.returns()
-    ctx.need('R12.2', len(rets) == 1, "_find_ocean_floor_indexes has one return", ff)
-    v = fflow.resolve(rets[0].value)
-    while isinstance(v, ast.Call) and (dotted(v.func) or '').endswith('cast') and len(v.args) == 2:
-        v = fflow.resolve(v.args[1])
-    ok_argmax = isinstance(v, ast.Call) and isinstance(v.func, ast.Attribute) and v.func.attr == 'argmax'
-    ctx.check('R12.2', ok_argmax, "the floor index is an argmax (last layer of a non-decreasing valid count)", ff, rets[0],
-              construct=f"reducer: {norm_text(v.func) if isinstance(v, ast.Call) else norm_text(v)}")
-    inner = fflow.resolve(v.func.value) if ok_argmax else None
-    ok_cumsum = isinstance(inner, ast.Call) and isinstance(inner.func, ast.Attribute) and inner.func.attr == 'cumsum'
-    ctx.check('R12.2', ok_cumsum, "argmax is taken over a cumulative sum along depth", ff, rets[0],
-              construct=f"argmax of: {norm_text(inner)[:80] if inner is not None else '?'}")
-    if ok_argmax and ok_cumsum:
-        d1 = _strip_str(v.args[0]) if v.args else kwarg(v, 'dim')
-        d2 = _strip_str(inner.args[0]) if inner.args else kwarg(inner, 'dim')
-        ok_dims = d1 is not None and d2 is not None and fflow.canon(_strip_str(d1)) == ('param', dd) and fflow.canon(_strip_str(d2)) == ('param', dd)
-        ctx.check('R12.3', ok_dims, "cumsum and argmax run along the depth dimension argument", ff, rets[0],
-                  construct=f"cumsum({norm_text(d2) if d2 is not None else '?'}).argmax({norm_text(d1) if d1 is not None else '?'})")
-        counted = fflow.resolve(inner.func.value)
-        ok_count = False
-        # data_array * 0 + 1   (NaN stays NaN, valid -> 1)   or notnull()/isfinite forms
-        if isinstance(counted, ast.BinOp) and isinstance(counted.op, ast.Add) and const_value(counted.right, None) == 1 \
-                and isinstance(counted.left, ast.BinOp) and isinstance(counted.left.op, ast.Mult) \
-                and const_value(counted.left.right, None) == 0 and fflow.canon(counted.left.left) == ('param', da):
-            ok_count = True
-        if isinstance(counted, ast.Call) and isinstance(counted.func, ast.Attribute) and counted.func.attr in ('notnull', 'notna') \
-                and fflow.canon(counted.func.value) == ('param', da):
-            ok_count = True
-        ctx.check('R12.2', ok_count, "what is accumulated is 1 per valid layer of the variable (missing stays missing / zero)", ff, rets[0],
-                  construct=f"accumulated: {norm_text(counted)}")
+    with ctx.section('R12.2 the reducer'):
+        ff = ctx.func(f"{DEPTH}._find_ocean_floor_indexes")
+        fflow = ctx.flow(ff)
+        da, dd = ff.params[0], ff.params[1]
+        rets = ff.returns()
+        ctx.need('R12.2', len(rets) == 1, "_find_ocean_floor_indexes has one return", ff)
+        v = fflow.resolve(rets[0].value)
+        while isinstance(v, ast.Call) and (dotted(v.func) or '').endswith('cast') and len(v.args) == 2:
+            v = fflow.resolve(v.args[1])
+        ok_argmax = isinstance(v, ast.Call) and isinstance(v.func, ast.Attribute) and v.func.attr == 'argmax'
+        ctx.check('R12.2', ok_argmax, "the floor index is an argmax (last layer of a non-decreasing valid count)", ff, rets[0],
+                  construct=f"reducer: {norm_text(v.func) if isinstance(v, ast.Call) else norm_text(v)}")
+        inner = fflow.resolve(v.func.value) if ok_argmax else None
+        ok_cumsum = isinstance(inner, ast.Call) and isinstance(inner.func, ast.Attribute) and inner.func.attr == 'cumsum'
+        ctx.check('R12.2', ok_cumsum, "argmax is taken over a cumulative sum along depth", ff, rets[0],
+                  construct=f"argmax of: {norm_text(inner)[:80] if inner is not None else '?'}")
+        if ok_argmax and ok_cumsum:
+            d1 = _strip_str(v.args[0]) if v.args else kwarg(v, 'dim')
+            d2 = _strip_str(inner.args[0]) if inner.args else kwarg(inner, 'dim')
+            ok_dims = d1 is not None and d2 is not None and fflow.canon(_strip_str(d1)) == ('param', dd) and fflow.canon(_strip_str(d2)) == ('param', dd)
+            ctx.check('R12.3', ok_dims, "cumsum and argmax run along the depth dimension argument", ff, rets[0],
+                      construct=f"cumsum({norm_text(d2) if d2 is not None else '?'}).argmax({norm_text(d1) if d1 is not None else '?'})")
+            counted = fflow.resolve(inner.func.value)
+            ok_count = False
+            # data_array * 0 + 1   (NaN stays NaN, valid -> 1)   or notnull()/isfinite forms
+            if isinstance(counted, ast.BinOp) and isinstance(counted.op, ast.Add) and const_value(counted.right, None) == 1 \
+                    and isinstance(counted.left, ast.BinOp) and isinstance(counted.left.op, ast.Mult) \
+                    and const_value(counted.left.right, None) == 0 and fflow.canon(counted.left.left) == ('param', da):
+                ok_count = True
+            if isinstance(counted, ast.Call) and isinstance(counted.func, ast.Attribute) and counted.func.attr in ('notnull', 'notna') \
+                    and fflow.canon(counted.func.value) == ('param', da):
+                ok_count = True
+            ctx.check('R12.2', ok_count, "what is accumulated is 1 per valid layer of the variable (missing stays missing / zero)", ff, rets[0],
+                      construct=f"accumulated: {norm_text(counted)}")
 
     # ---- R12.3 in ocean_floor
-    outer = [n for n in walk_no_nested(of.node) if isinstance(n, ast.For) and isinstance(n.target, ast.Name)
-             and n.target.id == 'depth_dimension']
-    ctx.need('R12.3', len(outer) == 1, "ocean_floor loops over the depth dimensions", of)
-    dvar = 'depth_dimension'
-    it = flow.resolve(outer[0].iter)
-    src_ok = flow.reaches(outer[0].iter, lambda n: isinstance(n, ast.Call) and callee(ctx, of, n) == f"{UTILS}.dimensions_from_coords"
-                          and len(n.args) == 2 and flow.canon(n.args[1]) != ('param', 'non_spatial_variables')
-                          and flow.reaches(n.args[1], lambda m: isinstance(m, ast.Name) and m.id == of.params[1]))
-    ctx.check('R12.3', src_ok, "the depth dimensions are those of the depth coordinates given", of, outer[0],
-              construct=f"for depth_dimension in {norm_text(outer[0].iter)}")
-    skips = [n for n in ast.walk(outer[0]) if isinstance(n, ast.If) and isinstance(n.test, ast.Compare)
-             and isinstance(n.test.ops[0], ast.NotIn) and norm_text(n.test.left) == dvar
-             and any(isinstance(s, ast.Continue) for s in n.body)]
-    ok_skip = len(skips) == 1 and norm_text(skips[0].test.comparators[0]).endswith('.dims')
-    ctx.check('R12.3', ok_skip, "variables without this depth dimension are skipped", of, skips[0] if skips else outer[0],
-              construct=f"skip test: {norm_text(skips[0].test) if skips else 'absent'}")
-    diffs = [c for c in method_calls(of, 'difference')]
-    ok_sp = False
-    if len(diffs) == 1:
-        c = diffs[0]
-        args = [norm_text(a) for a in c.args]
-        ok_sp = ('{' + dvar + '}') in args and 'non_spatial_dimensions' in args and norm_text(c.func.value).startswith('frozenset(') \
-            and norm_text(c.func.value).endswith('.dims)')
-    ctx.check('R12.3', ok_sp, "spatial dimensions = the variable's dims minus this depth dimension and the non-spatial ones", of,
-              diffs[0] if diffs else outer[0])
-    finds = [c for c in calls_in(of) if callee(ctx, of, c) == f"{DEPTH}._find_ocean_floor_indexes"]
-    ctx.need('R12.3', len(finds) == 1, "ocean_floor calls _find_ocean_floor_indexes once per group", of)
-    fc = finds[0]
-    ok_find = len(fc.args) == 2 and norm_text(fc.args[1]) == dvar
-    ctx.check('R12.3', ok_find, "the floor is searched along this depth dimension", of, fc)
-    ex = flow.resolve(fc.args[0])
-    ok_ex = False
-    if isinstance(ex, ast.Call) and isinstance(ex.func, ast.Attribute) and ex.func.attr == 'isel' and ex.args:
-        base_var = flow.resolve(ex.func.value)
-        sel = ex.args[0]
-        ok_sel = (isinstance(sel, ast.DictComp) and const_value(sel.value, None) == 0
-                  and norm_text(sel.generators[0].iter) == 'non_spatial_dimensions' and not sel.generators[0].ifs
-                  and isinstance(sel.key, ast.Name) and isinstance(sel.generators[0].target, ast.Name)
-                  and sel.key.id == sel.generators[0].target.id)
-        ok_base = (isinstance(base_var, ast.Subscript) and isinstance(base_var.slice, ast.Subscript)
-                   and const_value(base_var.slice.slice, None) == 0 and norm_text(base_var.slice.value) == 'variable_names'
-                   and norm_text(base_var.value) in (f"{ds}.data_vars", ds))
-        md = kwarg(ex, 'missing_dims')
-        dr = kwarg(ex, 'drop')
-        ok_ex = ok_sel and ok_base and md is not None and const_value(md, None) == 'ignore' and dr is not None and const_value(dr, None) is True
-    ctx.check('R12.3', ok_ex, "the example variable is the group's first, reduced to index 0 of the non-spatial dimensions only", of, fc,
-              construct=f"example = {norm_text(ex)[:120]}")
-    isels = [c for c in method_calls(of, 'isel') if c.args and isinstance(c.args[0], ast.Dict)]
-    ok_pick = False
-    for c in isels:
-        d = c.args[0]
-        if len(d.keys) == 1 and norm_text(d.keys[0]) == dvar and flow.resolve(d.values[0]) is fc:
-            subset = flow.alternatives(c.func.value) if isinstance(c.func.value, ast.Name) else []
-            recv_ok = flow.reaches(c.func.value, lambda n: isinstance(n, ast.Call) and callee(ctx, of, n) == f"{UTILS}.extract_vars"
-                                   and len(n.args) >= 2 and norm_text(n.args[1]) == 'variable_names')
-            dr = kwarg(c, 'drop')
-            ok_pick = recv_ok and dr is not None and const_value(dr, None) is True
-            pick = c
-    ctx.check('R12.3', ok_pick, "all variables of the group are picked at the one floor array along this depth dimension", of,
-              isels[0] if isels else outer[0], construct='dataset_subset.isel({depth_dimension: ocean_floor_indexes}, drop=True, ...)')
-    merges = [c for c in method_calls(of, 'merge')]
-    ok_merge = False
-    if len(merges) == 1 and ok_pick:
-        m = merges[0]
-        cp = kwarg(m, 'compat')
-        ok_merge = (flow.reaches(m.func.value, lambda n: n is pick) and len(m.args) == 1 and norm_text(m.args[0]) == ds
-                    and cp is not None and const_value(cp, None) == 'override')
-        st = stmt_of(of, m)
-        ok_merge = ok_merge and isinstance(st, ast.Assign) and norm_text(st.targets[0]) == ds
-    ctx.check('R12.3', ok_merge, "the reduced group is merged over the dataset (receiver wins), replacing the layered variables", of,
-              merges[0] if merges else outer[0], construct=f"merge: {norm_text(merges[0])[:90] if merges else 'absent'}")
-    groups = [n for n in ast.walk(outer[0]) if isinstance(n, ast.Call) and isinstance(n.func, ast.Attribute) and n.func.attr == 'append'
-              and norm_text(n.func.value) == 'dimension_sets[spatial_dimensions]']
-    ctx.check('R12.3', len(groups) == 1 and norm_text(groups[0].args[0]) == 'name', "variables are grouped by their spatial dimension set", of,
-              groups[0] if groups else outer[0], construct='dimension_sets[spatial_dimensions].append(name)')
-    drops = [c for c in method_calls(of, 'drop_dims')]
-    ok_drop = False
-    for c in drops:
-        st = stmt_of(of, c)
-        ok_drop = (c.args and norm_text(c.args[0]) == norm_text(outer[0].iter).replace('sorted(', '').split(',')[0].strip('()')
-                   or (c.args and 'depth_dimensions' in norm_text(c.args[0])))
-        ok_drop = ok_drop and all(flow.reaches(r.value, lambda n: n is c) for r in of.returns())
-        # after the loop
-        ok_drop = ok_drop and not any(x is c for x in ast.walk(outer[0]))
-    ctx.check('R12.3', ok_drop, "the depth dimensions are dropped from the result after all groups are reduced", of, drops[0] if drops else of.node,
-              construct=f"drop: {norm_text(drops[0]) if drops else 'absent'}")
+    with ctx.section('R12.3 in ocean_floor'):
+        outer = [n for n in walk_no_nested(of.node) if isinstance(n, ast.For) and isinstance(n.target, ast.Name)
+                 and n.target.id == 'depth_dimension']
+        ctx.need('R12.3', len(outer) == 1, "ocean_floor loops over the depth dimensions", of)
+        dvar = 'depth_dimension'
+        it = flow.resolve(outer[0].iter)
+        src_ok = flow.reaches(outer[0].iter, lambda n: isinstance(n, ast.Call) and callee(ctx, of, n) == f"{UTILS}.dimensions_from_coords"
+                              and len(n.args) == 2 and flow.canon(n.args[1]) != ('param', 'non_spatial_variables')
+                              and flow.reaches(n.args[1], lambda m: isinstance(m, ast.Name) and m.id == of.params[1]))
+        ctx.check('R12.3', src_ok, "the depth dimensions are those of the depth coordinates given", of, outer[0],
+                  construct=f"for depth_dimension in {norm_text(outer[0].iter)}")
+        skips = [n for n in ast.walk(outer[0]) if isinstance(n, ast.If) and isinstance(n.test, ast.Compare)
+                 and isinstance(n.test.ops[0], ast.NotIn) and norm_text(n.test.left) == dvar
+                 and any(isinstance(s, ast.Continue) for s in n.body)]
+        ok_skip = len(skips) == 1 and norm_text(skips[0].test.comparators[0]).endswith('.dims')
+        ctx.check('R12.3', ok_skip, "variables without this depth dimension are skipped", of, skips[0] if skips else outer[0],
+                  construct=f"skip test: {norm_text(skips[0].test) if skips else 'absent'}")
+        diffs = [c for c in method_calls(of, 'difference')]
+        ok_sp = False
+        if len(diffs) == 1:
+            c = diffs[0]
+            args = [norm_text(a) for a in c.args]
+            ok_sp = ('{' + dvar + '}') in args and 'non_spatial_dimensions' in args and norm_text(c.func.value).startswith('frozenset(') \
+                and norm_text(c.func.value).endswith('.dims)')
+        ctx.check('R12.3', ok_sp, "spatial dimensions = the variable's dims minus this depth dimension and the non-spatial ones", of,
+                  diffs[0] if diffs else outer[0])
+        finds = [c for c in calls_in(of) if callee(ctx, of, c) == f"{DEPTH}._find_ocean_floor_indexes"]
+        ctx.need('R12.3', len(finds) == 1, "ocean_floor calls _find_ocean_floor_indexes once per group", of)
+        fc = finds[0]
+        ok_find = len(fc.args) == 2 and norm_text(fc.args[1]) == dvar
+        ctx.check('R12.3', ok_find, "the floor is searched along this depth dimension", of, fc)
+        ex = flow.resolve(fc.args[0])
+        ok_ex = False
+        if isinstance(ex, ast.Call) and isinstance(ex.func, ast.Attribute) and ex.func.attr == 'isel' and ex.args:
+            base_var = flow.resolve(ex.func.value)
+            sel = ex.args[0]
+            ok_sel = (isinstance(sel, ast.DictComp) and const_value(sel.value, None) == 0
+                      and norm_text(sel.generators[0].iter) == 'non_spatial_dimensions' and not sel.generators[0].ifs
+                      and isinstance(sel.key, ast.Name) and isinstance(sel.generators[0].target, ast.Name)
+                      and sel.key.id == sel.generators[0].target.id)
+            ok_base = (isinstance(base_var, ast.Subscript) and isinstance(base_var.slice, ast.Subscript)
+                       and const_value(base_var.slice.slice, None) == 0 and norm_text(base_var.slice.value) == 'variable_names'
+                       and norm_text(base_var.value) in (f"{ds}.data_vars", ds))
+            md = kwarg(ex, 'missing_dims')
+            dr = kwarg(ex, 'drop')
+            ok_ex = ok_sel and ok_base and md is not None and const_value(md, None) == 'ignore' and dr is not None and const_value(dr, None) is True
+        ctx.check('R12.3', ok_ex, "the example variable is the group's first, reduced to index 0 of the non-spatial dimensions only", of, fc,
+                  construct=f"example = {norm_text(ex)[:120]}")
+        isels = [c for c in method_calls(of, 'isel') if c.args and isinstance(c.args[0], ast.Dict)]
+        ok_pick = False
+        for c in isels:
+            d = c.args[0]
+            if len(d.keys) == 1 and norm_text(d.keys[0]) == dvar and flow.resolve(d.values[0]) is fc:
+                subset = flow.alternatives(c.func.value) if isinstance(c.func.value, ast.Name) else []
+                recv_ok = flow.reaches(c.func.value, lambda n: isinstance(n, ast.Call) and callee(ctx, of, n) == f"{UTILS}.extract_vars"
+                                       and len(n.args) >= 2 and norm_text(n.args[1]) == 'variable_names')
+                dr = kwarg(c, 'drop')
+                ok_pick = recv_ok and dr is not None and const_value(dr, None) is True
+                pick = c
+        ctx.check('R12.3', ok_pick, "all variables of the group are picked at the one floor array along this depth dimension", of,
+                  isels[0] if isels else outer[0], construct='dataset_subset.isel({depth_dimension: ocean_floor_indexes}, drop=True, ...)')
+        merges = [c for c in method_calls(of, 'merge')]
+        ok_merge = False
+        if len(merges) == 1 and ok_pick:
+            m = merges[0]
+            cp = kwarg(m, 'compat')
+            ok_merge = (flow.reaches(m.func.value, lambda n: n is pick) and len(m.args) == 1 and norm_text(m.args[0]) == ds
+                        and cp is not None and const_value(cp, None) == 'override')
+            st = stmt_of(of, m)
+            ok_merge = ok_merge and isinstance(st, ast.Assign) and norm_text(st.targets[0]) == ds
+        ctx.check('R12.3', ok_merge, "the reduced group is merged over the dataset (receiver wins), replacing the layered variables", of,
+                  merges[0] if merges else outer[0], construct=f"merge: {norm_text(merges[0])[:90] if merges else 'absent'}")
+        groups = [n for n in ast.walk(outer[0]) if isinstance(n, ast.Call) and isinstance(n.func, ast.Attribute) and n.func.attr == 'append'
+                  and norm_text(n.func.value) == 'dimension_sets[spatial_dimensions]']
+        ctx.check('R12.3', len(groups) == 1 and norm_text(groups[0].args[0]) == 'name', "variables are grouped by their spatial dimension set", of,
+                  groups[0] if groups else outer[0], construct='dimension_sets[spatial_dimensions].append(name)')
+        drops = [c for c in method_calls(of, 'drop_dims')]
+        ok_drop = False
+        for c in drops:
+            st = stmt_of(of, c)
+            ok_drop = (c.args and norm_text(c.args[0]) == norm_text(outer[0].iter).replace('sorted(', '').split(',')[0].strip('()')
+                       or (c.args and 'depth_dimensions' in norm_text(c.args[0])))
+            ok_drop = ok_drop and all(flow.reaches(r.value, lambda n: n is c) for r in of.returns())
+            # after the loop
+            ok_drop = ok_drop and not any(x is c for x in ast.walk(outer[0]))
+        ctx.check('R12.3', ok_drop, "the depth dimensions are dropped from the result after all groups are reduced", of, drops[0] if drops else of.node,
+                  construct=f"drop: {norm_text(drops[0]) if drops else 'absent'}")
 
     # ---- R12.4
-    base = p.cls(BASE)
-    for name in ('ocean_floor', 'select_variables', 'to_netcdf'):
-        for fi in p.implementations(base, name):
-            reads = [n for n in ast.walk(fi.node) if isinstance(n, ast.Attribute) and n.attr == 'time_coordinate'
-                     and isinstance(n.value, ast.Name) and n.value.id == 'self']
-            if not reads:
-                ctx.check('R12.4', True, "no read of the optional time coordinate", fi, fi.node, construct=f"{fi.short}: no time_coordinate read")
-                continue
-            for r in reads:
-                ok = False
-                for t in walk_no_nested(fi.node):
-                    if isinstance(t, ast.Try) and any(x is r for b in t.body for x in ast.walk(b)):
-                        for h in t.handlers:
-                            names = []
-                            if h.type is None:
-                                names = ['BaseException']
-                            elif isinstance(h.type, ast.Tuple):
-                                names = [dotted(e) or '' for e in h.type.elts]
-                            else:
-                                names = [dotted(h.type) or '']
-                            if any(nm.rsplit('.', 1)[-1] in ('NoSuchCoordinateError', 'KeyError', 'LookupError', 'Exception', 'BaseException') for nm in names):
-                                ok = True
-                ctx.check('R12.4', ok, "the read is inside a try whose handler catches NoSuchCoordinateError (a KeyError)", fi, r,
-                          construct=f"{fi.short}: self.time_coordinate")
-    # the wrapper passes dataset and depth coordinates
-    for w in p.implementations(base, 'ocean_floor'):
-        wf = ctx.flow(w)
-        cs = [c for c in calls_in(w) if callee(ctx, w, c) == f"{DEPTH}.ocean_floor"]
-        ok = (len(cs) == 1 and len(cs[0].args) == 2 and wf.canon(cs[0].args[0]) == ('attr', ('param', 'self'), 'dataset')
-              and wf.canon(cs[0].args[1]) == ('attr', ('param', 'self'), 'depth_coordinates'))
-        ctx.check('R12.3', ok, "Convention.ocean_floor reduces its own dataset over all of its depth coordinates", w, cs[0] if cs else w.node)
+    with ctx.section('R12.4'):
+        base = p.cls(BASE)
+        for name in ('ocean_floor', 'select_variables', 'to_netcdf'):
+            for fi in p.implementations(base, name):
+                reads = [n for n in ast.walk(fi.node) if isinstance(n, ast.Attribute) and n.attr == 'time_coordinate'
+                         and isinstance(n.value, ast.Name) and n.value.id == 'self']
+                if not reads:
+                    ctx.check('R12.4', True, "no read of the optional time coordinate", fi, fi.node, construct=f"{fi.short}: no time_coordinate read")
+                    continue
+                for r in reads:
+                    ok = False
+                    for t in walk_no_nested(fi.node):
+                        if isinstance(t, ast.Try) and any(x is r for b in t.body for x in ast.walk(b)):
+                            for h in t.handlers:
+                                names = []
+                                if h.type is None:
+                                    names = ['BaseException']
+                                elif isinstance(h.type, ast.Tuple):
+                                    names = [dotted(e) or '' for e in h.type.elts]
+                                else:
+                                    names = [dotted(h.type) or '']
+                                if any(nm.rsplit('.', 1)[-1] in ('NoSuchCoordinateError', 'KeyError', 'LookupError', 'Exception', 'BaseException') for nm in names):
+                                    ok = True
+                    ctx.check('R12.4', ok, "the read is inside a try whose handler catches NoSuchCoordinateError (a KeyError)", fi, r,
+                              construct=f"{fi.short}: self.time_coordinate")
+        # the wrapper passes dataset and depth coordinates
+        for w in p.implementations(base, 'ocean_floor'):
+            wf = ctx.flow(w)
+            cs = [c for c in calls_in(w) if callee(ctx, w, c) == f"{DEPTH}.ocean_floor"]
+            ok = (len(cs) == 1 and len(cs[0].args) == 2 and wf.canon(cs[0].args[0]) == ('attr', ('param', 'self'), 'dataset')
+                  and wf.canon(cs[0].args[1]) == ('attr', ('param', 'self'), 'depth_coordinates'))
+            ctx.check('R12.3', ok, "Convention.ocean_floor reduces its own dataset over all of its depth coordinates", w, cs[0] if cs else w.node)
+
 
 
 # --------------------------------------------------------------------------- checker self-test
